@@ -5,10 +5,10 @@
 (*                                                                          *)
 (* One action per critical section of the Go code:                          *)
 (*                                                                          *)
-(*  the write (server write lock held from CLock to CLive)                  *)
+(*  the write (server write lock held from WStart to CLive)                 *)
 (*   WStart     handleInputCommand: s.mu.Lock, the command is applied, its  *)
 (*              position in the log is fixed (aof.go writeAOF)              *)
-(*   GStart/PApp aof.go queueHooks -> Server.Publish for every channel       *)
+(*   GStart/PApp aof.go queueHooks -> Server.Publish for every channel      *)
 (*              message of the write, in sortMsgs order                     *)
 (*   CQueue     aof.go queueHooks: ONE qdb.Update that inserts the webhook  *)
 (*              messages under increasing qidx with the 30 s TTL            *)
@@ -22,10 +22,13 @@
 (*   HTry       proc: epm.Send to the next endpoint of the hook             *)
 (*   HReinsert  proc: ONE transaction re-inserting the unsent tail under    *)
 (*              the same keys with the remaining TTL                        *)
-(*   HSleep     manager: time.Sleep(500ms); continue                        *)
-(*   HCheck     manager: lock; sig != h.sig ? continue : cond.Wait          *)
+(*   HSleep     manager: time.Sleep(500ms) - with the hook's mutex held -   *)
+(*              continue                                                    *)
+(*   HCheck     manager: sig != h.sig || closed ? continue : cond.Wait      *)
+(*   HOpen      Hook.OpenAfter: a redefined hook opens its manager when the *)
+(*              manager of the previous definition has ended                *)
 (*  client PUBLISH and subscribers (pubsub.go)                              *)
-(*   PStart/PApp Server.Publish: targets collected under pubsub.mu.RLock,    *)
+(*   PStart/PApp Server.Publish: targets collected under pubsub.mu.RLock,   *)
 (*              then appended target by target under the target's lock      *)
 (*   SReg       liveSubscription: pubsub.register, then writeSubscribe      *)
 (*   STake/SWrite  the single writer goroutine of a subscriber connection   *)
@@ -34,7 +37,10 @@
 (*   LDist      processLives: pop the head of lstack, append it to every    *)
 (*              registered buffer of that key                               *)
 (*   LEval      goLive main loop: pop the buffer, FenceMatch, write         *)
-(*  the environment: client sends / receives, endpoint status flips, time.  *)
+(*  the environment: endpoint status flips, identical / changed SETHOOK,    *)
+(*  ticks of the retention clock.  Client-side stamps (command sent, reply  *)
+(*  read) are taken together with the first / last server step of an       *)
+(*  operation (see the comment at the variables).                          *)
 (*                                                                          *)
 (* Every way in which a plausible implementation goes wrong is a named      *)
 (* value of Variant; TLC shows that "intended" (= the code as read)         *)
@@ -57,7 +63,7 @@ CONSTANTS
   FailModes,  \* failure modes an endpoint may take: subset of {"refuse", "5xx", "hang"}
   MaxFlips,   \* bound on endpoint status changes
   MaxPokes,   \* bound on spurious signals (SETHOOK with an identical definition)
-  MaxReplace, \* bound on SETHOOK redefinitions of a hook (D14); 0 = none
+  MaxReplace, \* bound on SETHOOK redefinitions of a hook; 0 = none
   TTL,        \* retention of a queue entry in ticks
   MaxClock,   \* bound on the clock; 0 = time stands still
   ChanKey,    \* ChanKey[f]   : key watched by channel fence f (SETCHAN); channel f carries its events
@@ -71,7 +77,9 @@ CONSTANTS
   NKeys,      \* keys are 1..NKeys
   LiveKey,    \* LiveKey[l]   : key of live fence connection l
   LiveKinds,  \* LiveKinds[l] : detect codes in the order FenceMatch returns them
-  Variant,    \* "intended" or the name of a broken variant (see the actions)
+  Variant,    \* "intended", or one of the broken variants: "reinsert_skips_failed", "reinsert_whole_batch",
+              \* "reinsert_new_index", "no_signal_recheck", "signal_before_commit", "redefinition_overlaps",
+              \* "ack_before_register", "unordered_writer", "lifo_live_stack"
   Record      \* TRUE: keep the history of events in hist (generators)
 
 Hooks    == 1..Len(HookKey)
